@@ -1,16 +1,16 @@
 SPECIFICATION TraceSpec
 CONSTANTS
-  Stages = 6
+  Stages = 3
   AccEvals = 0
   DenseEvals = 0
-  CountRule = "hairer"
+  CountRule = "scipy"
   HasHinit = TRUE
   HasSmall = TRUE
-  StiffEvery = 1000
+  StiffEvery = 0
   StiffLimit = 15
   NonStiffReset = 6
   Metric = FALSE
-  LowBudget = 100000
+  LowBudget = 10000
 CONSTRAINT Track
 INVARIANT TraceInv
 POSTCONDITION Accepted
